@@ -197,12 +197,19 @@ def check_negative(ctx, case):
         # the foreign code sits on an interior continuation line; the reply then returns to its own code
         pos = 1 + where % (len(body) - 1)
         bad = "".join(f"{(c2 if i == pos else c1):03d}-{x}\r\n" for i, x in enumerate(body)) + f"{c1:03d} {tail}\r\n"
-        data = data_b + bad.encode(enc)
-        out = lp.run_until_complete(_decode(data, cuts, enc, len(norm_b) + 1))
+        data = data_b + bad.encode(enc) + data_a
+        out = lp.run_until_complete(_decode(data, cuts, enc, len(norm_b) + 1 + len(norm_a)))
         ctx.count(case, True, sample=dict(encoding=enc, bad=bad, interior=True), classes=["neg_interior"])
         k = len(norm_b)
         if len(out) <= k or out[k][0] != "STATUS":
             raise Violation("C06/negative/interior_foreign_code_not_rejected", dict(bad=bad, got=repr(out[k] if len(out) > k else None)))
+        # the rejected reply ends with its own terminating line: what follows is the next reply, and it is decoded as sent
+        rest = out[k + 1:]
+        if len(rest) != len(norm_a):
+            raise Violation("C06/negative/interior/next_reply_lost", dict(bad=bad, after=norm_a, got=repr(rest)))
+        for (code, lines, lst), got in zip(norm_a, rest):
+            if got[0] in ("EXC", "STATUS") or str(got[0]) != code or strip_sep(got[1]) != [x.rstrip() for x in lines]:
+                raise Violation("C06/negative/interior/next_reply_misread", dict(bad=bad, sent=(code, lines, lst), got=repr(got)))
         return
     bad = "".join(f"{c1:03d}-{x}\r\n" for x in body) + f"{c2:03d} {tail}\r\n"
     data = data_b + bad.encode(enc) + data_a
